@@ -34,7 +34,7 @@ def enum_member(e: ast.AST, *members: str) -> Optional[str]:
 def enum_members_in(e: ast.AST) -> set[str]:
     out = set()
     for n in ast.walk(e):
-        if isinstance(n, ast.Attribute) and n.attr.isupper():
+        if isinstance(n, ast.Attribute) and n.attr.isupper() and n.attr not in ('VALUE', 'MESSAGE_ID'):
             out.add(n.attr)
     return out
 
@@ -173,11 +173,11 @@ def expand_aliases(fn: FuncInfo, e: ast.AST, depth: int = 3) -> ast.AST:
             return n
     cur = ast.parse(unparse(e), mode='eval').body
     for _ in range(depth):
+        before = unparse(cur)
         nxt = T().visit(cur)
-        nxt = ast.parse(unparse(nxt), mode='eval').body
-        if unparse(nxt) == unparse(cur):
+        cur = ast.parse(unparse(nxt), mode='eval').body
+        if unparse(cur) == before:
             break
-        cur = nxt
     return cur
 
 
